@@ -408,6 +408,8 @@ pub struct Opts {
     pub seed: u64,
     pub replay: Option<PathBuf>,
     pub cases_override: Option<u64>,
+    /// evaluation aid (mutation sweeps): run this fraction of the tier's random cases; never set by registered commands
+    pub frac: Option<f64>,
     pub strict: bool,
     pub no_evidence: bool,
     pub threads: usize,
@@ -783,7 +785,10 @@ pub fn main_for<P: Property>(p: P, opts: &Opts) -> i32 {
     }
 
     // ---- stage 3: random cases, sharded --------------------------------------------------------
-    let cases = opts.cases_override.unwrap_or_else(|| p.cases(opts.tier));
+    let cases = opts.cases_override.unwrap_or_else(|| match opts.frac {
+        Some(f) => ((p.cases(opts.tier) as f64) * f).ceil() as u64,
+        None => p.cases(opts.tier),
+    });
     if violation.is_none() && cases > 0 {
         let per_shard = (cases + SHARDS - 1) / SHARDS;
         let next_shard = Arc::new(AtomicU64::new(0));
